@@ -8,6 +8,7 @@ pub mod chanfsm;
 pub mod ev;
 pub mod kvvmc;
 pub mod monitors;
+pub mod nodemc;
 pub mod props;
 pub mod scenario;
 pub mod secretstore;
